@@ -94,6 +94,25 @@ def cases(rng, tier):
             pass
         fx = rng.choice([2.5, -2.5, 1e20, -7.99, 0.999, 123456789.5, -0.0])
         yield Case(program=render(bi('ㅈㅅ', VL.float_expr(fx))), tag='to-int', monitor='c11_expect', data=str(int(fx)))
+    # n-ary ㄱ / ㄷ over mixed integer / real operands, with zero partial products and sums in every position: the result is
+    # the left fold of the binary operation — in particular it widens to a real as soon as any operand is real, also after the
+    # running product has become zero (seeded change S11i stopped at a zero partial product)
+    import functools, operator
+    mpool = [0, 0, 1, -1, 2, 3, -7, 10 ** 20, 0.0, -0.0, 0.5, -0.5, 2.0, 1e300, 1e-300, -3.25]
+    for _ in range(300 if tier == 'quick' else 6000):
+        xs = [rng.choice(mpool) for _ in range(rng.randint(3, 5))]
+        if rng.random() < 0.6:
+            xs[rng.randrange(len(xs) - 1)] = 0          # a zero before the last operand
+        es = [VL.float_expr(x) if isinstance(x, float) else lit(x) for x in xs]
+        for name, op in (('ㄱ', operator.mul),):     # (n-ary real sums are compensated by the host's sum(): no plain-fold oracle)
+            try:
+                r = functools.reduce(op, xs)
+            except OverflowError:
+                continue
+            if isinstance(r, float) and (r != r or r in (float('inf'), float('-inf'))):
+                continue
+            want = VL.py_float_repr(r) if isinstance(r, float) else str(r)
+            yield Case(program=render(bi(name, *es)), tag='nary-mixed-' + ('mul' if name == 'ㄱ' else 'add'), monitor='c11_expect', data=want)
     # conversions on integers beyond the range of a double (|n| ≥ 2^1024, ≈ 309 digits): ㅈㅅ is the identity on every
     # integer and on numeric strings of any length, arithmetic stays exact, only the conversion *to* a real fails — with a
     # language exception (seeded change S11h routed ㅈㅅ through math.isfinite)
